@@ -357,6 +357,7 @@ def readdir_paths(tu, dir_value, cookie, buflen=100, errno_value=5, max_paths=40
         k = st2['nread']
         interp.event('extern:readdir', (pe._hashable(args[0]),), node)
         if k > 2 or not interp.decide(unk('entry-%d' % k), node):
+            interp.event('readdir-null', (), node)
             return 0
         ent = {'d_ino': unk('ino%d' % k, 'unsigned long'), 'd_off': unk('off%d' % k), 'd_reclen': unk('reclen'),
                'd_type': st2.get('dtype', 8), 'd_name': [110, 0]}
@@ -439,22 +440,27 @@ def check_readdir(chk, tu):
         if seen >= 3:
             break
     chk.require(seen >= 1, 'no readdir path stores an entry')
-    # buffer-full convention: with a buffer smaller than a record, bufused is reported as buflen
-    paths = readdir_paths(tu, OPEN, 0 if False else unk('cookie', 'unsigned long long'), buflen=10)
+    # buffer-full convention: bufused < buflen tells the guest that the directory is exhausted.  On every successful path that
+    # has not seen readdir() return NULL the reported bufused must therefore equal buflen - decided for buffers smaller than a
+    # record header (10), exactly a header (24), one record plus a remainder below a header (30), one record plus exactly a
+    # header (49) and two records plus a remainder (55); the modelled entries have one-character names (25-byte records)
     used = unk('used')
     full = 0
-    for p in paths:
-        if p.ret != 0 or 'extern:readdir' not in [e[0] for e in p.events]:
-            continue
-        got_entry = any(c.op == 'unk' and str(c.args[0]) == 'entry-1' and t for c, t, _ in p.decisions)
-        if not got_entry:
-            continue
-        fin = [a[2] for n_, a, l in p.events if n_ == 'gstore' and offset_from(a[1], used) == 0]
-        full += 1
-        chk.expect(bool(fin) and fin[-1] == 10, 'R14.5', 'buffer-full-convention',
-                   'with a 10-byte buffer and an entry available bufused is reported as %r, expected buflen (10) to signal "more entries"'
-                   % (fin[-1] if fin else None,), site + ':buffer-full')
-    chk.require(full >= 1, 'no path exercises the buffer-full convention')
+    for blen in (10, 24, 30, 49, 55):
+        paths = readdir_paths(tu, OPEN, unk('cookie', 'unsigned long long'), buflen=blen)
+        for p in paths:
+            if p.ret != 0:
+                continue
+            exhausted = any(e[0] == 'readdir-null' for e in p.events)
+            if exhausted:
+                continue
+            fin = [a[2] for n_, a, l in p.events if n_ == 'gstore' and offset_from(a[1], used) == 0]
+            full += 1
+            chk.expect(bool(fin) and fin[-1] == blen, 'R14.5', 'buffer-full-convention[buflen=%d]' % blen,
+                       'with a %d-byte buffer fd_readdir succeeds without having seen the end of the directory and reports bufused = %r; '
+                       'anything below buflen (%d) tells the guest that no entries remain, so the rest of the directory is never delivered'
+                       % (blen, fin[-1] if fin else None, blen), site + ':buffer-full')
+    chk.require(full >= 2, 'no path exercises the buffer-full convention')
 
 
 def _strip_data(v):
